@@ -155,7 +155,7 @@ func allChecks() []CheckSpec {
 			Harnesses: []HarnessSpec{
 				{Fn: "verifC06AddRemote", Lemma: "public AddRemoteCandidate with every kind of trickled candidate (new host/srflx, duplicate, signalled candidate superseding a peer-reflexive one, TCP-active, nil) preserves the bookkeeping invariant I1-I5 (no pair twice, ids unique/in range/indexed, pairs formed from current candidates of one network type, selected listed, remotes deduplicated/never TCP-active/accepted by the IP filter); a superseded peer-reflexive candidate's pairs keep id, state, flags, priority and the selection",
 					Bounds: "2 local + 1 host + 1 prflx remote, symbolic pair states/flags, selection nil/any, remote IP filter rejecting one symbolic last octet, 6 candidate kinds", MustReach: []string{"filtered", "added", "duplicate", "supersedes-prflx", "ignored", "done"},
-					Cfg: func(c *HarnessCfg, tier int) { c.GoRunMatch = "AddRemoteCandidate$" }},
+					Cfg: func(c *HarnessCfg, tier int) { c.GoRunMatch = "AddRemoteCandidate$1" }},
 				{Fn: "verifC06PrflxThenSignalled", Lemma: "signalled-then-prflx order: an authenticated request from a signalled candidate's address creates no duplicate remote", Bounds: "1+1 candidates, symbolic tie-breaker/priority", MustReach: []string{"done"}},
 				{Fn: "verifC06InboundUnknown", Lemma: "authenticated request from an unknown source: the peer-reflexive candidate passes through the remote IP filter (filtered => nothing changes at all) and the invariant holds",
 					Bounds: "2 local + 1 remote, two unknown source addresses, filter rejecting one symbolic last octet", MustReach: []string{"filtered", "discovered", "done"}},
@@ -200,8 +200,8 @@ func allChecks() []CheckSpec {
 				{Fn: "verifC04Tick", Lemma: "1..2 check ticks through the real connectivityChecks loop: every notified transition is an edge of the lifecycle graph without repeats, Connected/Disconnected only with a selected pair, a tick while Failed changes nothing, Checking->Failed only with a deadline, Failed releases everything",
 					Bounds: "start states Checking/Connected/Disconnected/Failed, timeouts {default, 0, 1 ns}, silence 1 ms..1 min, 1..2 ticks, both roles", MustReach: []string{"failed-stays", "checking->failed", "->failed", "done"}},
 				{Fn: "verifC04Update", Lemma: "updateConnectionState: exactly one notification carrying the new state iff it changed; the Failed notification is enqueued after the release",
-					Bounds: "all (current, next) state pairs, with/without selection", MustReach: []string{"changed", "done"},
-					Cfg: func(c *HarnessCfg, tier int) { c.GoRunMatch = "EnqueueConnectionState$" }},
+					Bounds: "all (current, next) state pairs, with/without selection", MustReach: []string{"changed", "handler-ran", "done"},
+					Cfg: func(c *HarnessCfg, tier int) { c.GoRunMatch = "EnqueueConnectionState$1" }},
 				{Fn: "verifC04Restart", Lemma: "Restart: Connected/Disconnected/Failed/Checking -> Checking, New stays New, one notification iff changed",
 					Bounds: "5 start states", MustReach: []string{"done"}},
 			},
